@@ -433,16 +433,30 @@ def alignment_exponents_nonneg(ck, rule, results, names, nfrac_of):
 
 # =========================================================================== room (ordering) rules
 
-def _sizes_for(ck, rule, f, w, call):
+def _sizes_for_all(ck, rule, f, w, call):
+    """[(signed, n_int, n_frac, pf, asg)] one per uncoerced path (path guards applied, operand n_int expanded)"""
     al = operand_alias(f, w, call)
-    r = optimal_sizes(ck, ck.prog, f, call, alias=al)
-    if r is None or isinstance(r, str):
-        ck.bad(rule, f, "%s packs an optimal size for its result" % f.name, "optimal_size %s" % r, call,
+    rs = optimal_sizes_all(ck, ck.prog, f, call, alias=al)
+    if rs is None or isinstance(rs, str):
+        ck.bad(rule, f, "%s packs an optimal size for its result" % f.name, "optimal_size %s" % rs, call,
                "without it the result takes the operand's own size and overflows at the extremes")
-        return None
-    sg, nw, ni, nf, pf = r
+        return []
     wf = wellformed(["x", "y"])
-    return sg, ni.subst(wf), nf.subst(wf), pf
+    out = []
+    for sg, nw, ni, nf, pf, asg in rs:
+        asg2 = {}
+        for k_, v_ in asg.items():
+            asg2[k_] = v_
+        out.append((sg, ni.subst(wf).subst(asg2), nf.subst(wf).subst(asg2), pf, asg2))
+    return out
+
+
+def _sizes_for(ck, rule, f, w, call):
+    r = _sizes_for_all(ck, rule, f, w, call)
+    if not r:
+        return None
+    r0 = sorted(r, key=lambda x: len(x[3].guards))[0]
+    return r0[:4]
 
 
 def _ge(ck, rule, f, node, lhs, rhs, what, meaning, facts=None):
@@ -487,25 +501,26 @@ def division_room(ck, rule):
     for f, w, call in public_functions(prog):
         if f.name not in ("truediv", "floordiv", "mod"):
             continue
-        r = _sizes_for(ck, rule, f, w, call)
-        if r is None:
-            continue
-        sg, ni, nf, pf = r
-        if f.name in ("truediv", "floordiv"):
-            _ge(ck, rule, f, call, sg, t_or(xs, ys), "%s: the result is signed when an operand is signed" % f.name, "negative quotients are lost")
-            _ge(ck, rule, f, call, ni, xi + yf + xs * ys,
-                "%s: n_int >= x.n_int + y.n_frac + [both signed] (largest |x| over smallest |y|; only (-)/(-) reaches +2^(x.n_int+y.n_frac))" % f.name,
-                "the extreme quotient min/(-LSB) overflows")
-            if f.name == "floordiv":
-                _ge(ck, rule, f, call, nf, Term.const(0), "floordiv: the integer quotient is representable (n_frac >= 0)", "integer quotients are rounded")
-        else:
-            _ge(ck, rule, f, call, sg, ys, "mod: the result is signed when the divisor is signed (remainder takes the divisor's sign)", "negative remainders are lost")
-            # result signed  -> n_int >= y.n_int ; both unsigned -> n_int >= min(x.n_int, y.n_int)
-            need = ite(t_or(xs, ys), yi, tmin(xi, yi))
-            _ge(ck, rule, f, call, ni, need, "mod: n_int >= y.n_int (|x%y| < |y|), or >= min(x.n_int, y.n_int) when both operands are unsigned",
-                "a remainder close to the divisor does not fit")
-            _ge(ck, rule, f, call, nf, tmax(xf, yf), "mod: n_frac >= max(x.n_frac, y.n_frac) (the remainder lies on the finer grid)", "the remainder is rounded")
-        GROWTH[f.name] = (sg, ni, nf)
+        rows = _sizes_for_all(ck, rule, f, w, call)
+        for sg, ni, nf, pf, asg in rows:
+            xs_, ys_ = xs.subst(asg), ys.subst(asg)
+            if f.name in ("truediv", "floordiv"):
+                _ge(ck, rule, f, call, sg, t_or(xs_, ys_), "%s: the result is signed when an operand is signed" % f.name, "negative quotients are lost")
+                _ge(ck, rule, f, call, ni, (xi + yf).subst(asg) + xs_ * ys_,
+                    "%s: n_int >= x.n_int + y.n_frac + [both signed] (largest |x| over smallest |y|; only (-)/(-) reaches +2^(x.n_int+y.n_frac))" % f.name,
+                    "the extreme quotient min/(-LSB) overflows")
+                if f.name == "floordiv":
+                    _ge(ck, rule, f, call, nf, Term.const(0), "floordiv: the integer quotient is representable (n_frac >= 0)", "integer quotients are rounded")
+            else:
+                _ge(ck, rule, f, call, sg, ys_, "mod: the result is signed when the divisor is signed (remainder takes the divisor's sign)", "negative remainders are lost")
+                # result signed  -> n_int >= y.n_int ; both unsigned -> n_int >= min(x.n_int, y.n_int)
+                need = ite(t_or(xs_, ys_), yi, tmin(xi, yi)).subst(asg)
+                _ge(ck, rule, f, call, ni, need, "mod: n_int >= y.n_int (|x%y| < |y|), or >= min(x.n_int, y.n_int) when both operands are unsigned",
+                    "a remainder close to the divisor does not fit")
+                _ge(ck, rule, f, call, nf, tmax(xf, yf), "mod: n_frac >= max(x.n_frac, y.n_frac) (the remainder lies on the finer grid)", "the remainder is rounded")
+        if rows:
+            sg, ni, nf, pf, asg = sorted(rows, key=lambda r_: len(r_[3].guards))[0]
+            GROWTH[f.name] = (sg, ni, nf)
 
 
 def division_operators(ck, rule, results):
